@@ -7,6 +7,11 @@ src = f"/tmp/wk/{pid}/verif"
 dst = os.path.dirname(os.path.dirname(os.path.abspath(__file__)))
 out = subprocess.run(["git", "-C", src, "status", "--porcelain", "-uall"], capture_output=True, text=True).stdout
 SHARED_OK = {"lean/PybropsModel/Drv/All.lean", "lean/PybropsModel.lean", "KNOWN_FINDINGS.txt", "MANIFEST.json"}
+# shared infrastructure: never overwritten from a builder's copy (changes there are merged by hand)
+INFRA = {"harness/core.py", "harness/bridge.py", "harness/canon.py", "harness/compat.py", "harness/findings.py", "harness/main.py",
+         "harness/__init__.py", "lean/PybropsModel/J.lean", "lean/PybropsModel/Np.lean", "lean/Driver.lean", "lean/AuditCmd.lean",
+         "lean/lakefile.toml", "check", "DESIGN.md", "AGENT_GUIDE.md", "properties.jsonl"}
+OWN = sys.argv[2:] or None      # optional: only take files whose path mentions one of these substrings (e.g. C09 C10 Genotype SelLimit)
 for line in out.splitlines():
     st, path = line[:2], line[3:]
     if path.startswith("evidence/") or "__pycache__" in path or path.startswith("lean/.lake"):
@@ -22,8 +27,17 @@ for line in out.splitlines():
             for l in new:
                 f.write(l + "\n")
                 print("finding ", l[:150])
-    elif path in SHARED_OK:
+    elif path in SHARED_OK or path.startswith(("tools/", "seeded/")):
         pass
-    else:
+    elif path in INFRA:
         print("MODIFIED shared file (merge by hand):", path)
+    elif st.strip() in ("M", "MM", "AM"):
+        low = pid.lower()
+        # a builder that started from a fresh copy modifies its own (tracked) files: take them; other properties' files are left alone
+        owner_ok = (pid in path or low in path) or (OWN and any(o in path for o in OWN))
+        if owner_ok or not any(f"C{n:02d}" in path or f"c{n:02d}" in path for n in range(1, 21)):
+            shutil.copy2(os.path.join(src, path), os.path.join(dst, path))
+            print("updated", path)
+        else:
+            print("SKIPPED (belongs to another property):", path)
 subprocess.run([sys.executable, os.path.join(dst, "tools", "regen_lean_index.py")])
